@@ -1290,6 +1290,25 @@ def _run(ctx, pool, res):
                 elif v["prop"] == "C01" and v["rule"] in ("stall", "completion_without_effect"):
                     add_violation(res, seen, "C09", "does_not_complete_in_schedule", v["msg"], r["case"]["text"],
                                   {"sched_case": sched_family.strip_case(r["case"])})
+    # C09: programs of any shape (also the shapes of the known findings about parallel loops, on which the monitors are
+    # not consulted) against the net layer of the model: an exception that the model does not predict, a run that ends
+    # elsewhere, breaks the correspondence
+    net_any = []
+    if prop == "C09" and ctx["model_ok"]:
+        import net_tie
+        import sched_family
+
+        ajobs = [(seed * 6700417 + i, {"gen": {}, "max_ops": 40}) for i in range(80 if quick else 800)]
+        ars = [r for r in pool.map(sched_family.job_gen_run_any, ajobs, chunksize=2)
+               if r.get("valid") and net_tie.applicable(r["case"]) and not any(c.get("exc") == "RecursionError" for c in r["calls"])]
+        aresps = sched_family.run_model([net_tie.net_request(r["case"]) for r in ars])
+        for r, resp in zip(ars, aresps):
+            if any(c.get("stuck") == "outOfFuel" for c in resp.get("calls", [])):
+                continue
+            d = net_tie.compare_calls(r["calls"], None, None, resp, proj=sched_family.proj_full)
+            if d:
+                net_any.append((r, d))
+        run_hist["net_layer/any_shape_cases"] = len(ars)
     # model correspondence -----------------------------------------------------------------------------------
     disagreements = []
     front_stats = {"compared": 0, "skipped": 0}
@@ -1334,6 +1353,9 @@ def _run(ctx, pool, res):
     elif not ctx["model_ok"]:
         res["unexplained"].append({"what": "the Lean model does not build: " + "; ".join(ctx["build"].get("build_errors", [])[:3])})
     res["violations"] = [v for v in res["violations"] if v["replay_obj"]["property"] == prop]
+    for r, d in net_any[:3]:
+        disagreements.append(("net-layer/any-shape", r["case"]["text"], "net layer of the scheduler model, history %s: %s"
+                              % (json.dumps([o for o in r["case"].get("ops", []) if o["op"] != "reg"])[:300], d)))
     if disagreements and not res["violations"]:
         tag, text, d = disagreements[0]
         res["unexplained"].append({"what": "correspondence broken (validation model, %s projection) on %d of %d programs: [%s] %s"
